@@ -43,7 +43,12 @@ def gen_version(rng, game, b):
     """-> (raw string for the json, description)"""
     names = sorted(set(b['defs']) | set(b['modules']))
     r = rng.random()
-    if r < 0.6 and names:
+    if r < 0.12 and names:
+        # a release whose name is a string prefix (or an extension) of a bundled one: 2.1.1 next to 2.1.17, 0.10 next to 0.1, ...
+        comps = rng.choice(names).split('_')[:3]
+        j = rng.randrange(len(comps))
+        comps[j] = comps[j][:-1] if (len(comps[j]) > 1 and rng.random() < 0.6) else comps[j] + rng.choice('0127')
+    elif r < 0.6 and names:
         comps = rng.choice(names).split('_')
     elif r < 0.8:
         comps = [str(rng.choice([0, 1, 2, 9, 12, 13, 14, 15, 99])), str(rng.randint(0, 13)), str(rng.randint(0, 12))]
@@ -182,6 +187,22 @@ def run(chk, drv):
                              ('wowp', 'World of Warplanes 0.3.3.1', ['0', '3', '3', '1'])]:
         cases.append((game, raw, comps))
         reqs.append({'op': 'version.select', 'game': game, 'raw': raw, 'bundled': bund[game]})
+    # releases whose name is a string prefix of a bundled one (a digit dropped from one component), for every bundled name: always probed
+    seen_probe = set()
+    for game in GAMES:
+        for nm in sorted(set(bund[game]['defs']) | set(bund[game]['modules'])):
+            comps0 = nm.split('_')[:3]
+            for j in range(len(comps0)):
+                if len(comps0[j]) > 1:
+                    comps = list(comps0)
+                    comps[j] = comps[j][:-1]
+                    comps = comps + ['0']
+                    if (game, tuple(comps)) in seen_probe:
+                        continue
+                    seen_probe.add((game, tuple(comps)))
+                    raw = ','.join(comps) if game == 'wows' else ('World of Warplanes ' + '.'.join(comps)) if game == 'wowp' else 'World\xa0of\xa0Tanks v.' + '.'.join(comps) + ' #1'
+                    cases.append((game, raw, comps))
+                    reqs.append({'op': 'version.select', 'game': game, 'raw': raw, 'bundled': bund[game]})
     replies = drv.run(reqs) if drv is not None else [None] * len(cases)
     # the top of the pipeline (ReplayModel.getInfo): the same files through the model's get_info, both modes
     gi = {}
